@@ -281,7 +281,8 @@ func runHistory(c *caseT) (string, error) {
 	script := map[string]string{} // body key -> outcome in force when it first arrived
 	ctx, cancel := context.WithCancel(context.Background())
 	defer cancel()
-	client := &http.Client{Timeout: 30 * time.Second}
+	// one connection per request: a kept-alive connection that the other side has meanwhile closed would fail a POST
+	client := &http.Client{Timeout: 30 * time.Second, Transport: &http.Transport{DisableKeepAlives: true}}
 
 	// ---- fake upstream
 	upstream := httptest.NewServer(http.HandlerFunc(func(w http.ResponseWriter, r *http.Request) {
@@ -732,6 +733,11 @@ func runOne(line string) (out string) {
 			if err != nil {
 				done <- "ENV_PORT_CLASH"
 				return
+			}
+			if attempt < 2 && (strings.HasSuffix(s, "!telemetry-endpoint-unreachable") || strings.HasSuffix(s, "!ingestion-refused")) {
+				// the harness's own request to one of the extension's local endpoints failed at the transport level
+				// (seen under heavy load): repeat the history before believing it
+				continue
 			}
 			done <- s
 			return
